@@ -126,6 +126,11 @@ pub struct Sc {
     pub installer: Vec<InstallerStep>,
     /// file names to push through MetadataEntry::from_filename
     pub probes: Vec<String>,
+    /// 0: one caller thread.  Otherwise a second caller thread exists; next() call
+    /// number i on the database handle and metadata read number i are made by it when
+    /// bit i mod 63 is set (handles opened on one thread, used on the other)
+    #[serde(default)]
+    pub migrate: u64,
 }
 
 pub struct C20;
@@ -267,7 +272,11 @@ impl Property for C20 {
                     name,
                     order,
                     crash_at,
-                    contents: (0..NFILES).map(|f| gen_content(rng, f)).collect(),
+                    // (a scale database holds small files: hundreds of directories times
+                    // files of hundreds of KB would be tens of MB per run)
+                    contents: (0..NFILES)
+                        .map(|f| if many { format!("{} of a package among many\n", FILE_NAMES[f]) } else { gen_content(rng, f) })
+                        .collect(),
                     extras: if rng.chance(1, 6) { rng.urange(1, 40) } else { 0 },
                 }
             })
@@ -353,6 +362,8 @@ impl Property for C20 {
             twin: rng.chance(1, 3),
             installer,
             probes,
+            // (not with the scale databases: a rendezvous per call would dominate)
+            migrate: if rng.chance(1, 8) { rng.next_u64() | (1 << 63) } else { 0 },
         }
     }
 
@@ -540,7 +551,14 @@ impl Property for C20 {
 
         // ---- iterate, with the installer running between next() calls
         ctx.step("open", 2, 0);
-        let mut db = match PkgDB::open(&dbpath) {
+        let helper: Option<Helper> = if sc.migrate != 0 && sc.pkgs.len() < 200 && is_send_sync!(PkgDB) && is_send_sync!(pkgsrc::pkgdb::Package) {
+            ctx.fault("caller_thread_switch");
+            Some(Helper::new())
+        } else {
+            None
+        };
+        let mask = sc.migrate;
+        let mut db = match on_thread!(helper, mask, 60u64, PkgDB::open(&dbpath)) {
             Ok(d) => d,
             Err(e) => fail!("open-failed", "PkgDB::open of an existing directory failed: {}", e),
         };
@@ -580,7 +598,7 @@ impl Property for C20 {
                     sc.pkgs.len() + sc.strays.len()
                 );
             }
-            match metered!(ctx, 512, db.next()) {
+            match on_thread!(helper, mask, nexts, metered!(ctx, 512, db.next())) {
                 None => break,
                 Some(Ok(p)) => yielded.push((p.pkgname().clone(), p.pkgbase().clone(), p.pkgversion().clone())),
                 Some(Err(_)) => errors += 1,
@@ -590,7 +608,7 @@ impl Property for C20 {
         // adaptors): it must return normally, and anything it yields counts
         for _ in 0..2 {
             ctx.step("next-after-end", 0, 0);
-            match db.next() {
+            match on_thread!(helper, mask, 61u64, db.next()) {
                 None => {}
                 Some(Ok(p)) => yielded.push((p.pkgname().clone(), p.pkgbase().clone(), p.pkgversion().clone())),
                 Some(Err(_)) => errors += 1,
@@ -902,7 +920,12 @@ impl Property for C20 {
             for (k, (pi, pkg)) in listed.iter().enumerate() {
                 let pi = *pi;
                 let md = &mut mds[k];
-                let got = metered!(ctx, if exists[pi][f] { sc.pkgs[pi].contents[f].len() } else { 0 } + 256, pkg.read_metadata(entry(f)));
+                let got = on_thread!(
+                    helper,
+                    mask,
+                    k * NFILES + f,
+                    metered!(ctx, if exists[pi][f] { sc.pkgs[pi].contents[f].len() } else { 0 } + 256, pkg.read_metadata(entry(f)))
+                );
                 ctx.step("read_metadata", pi as u64, f as u64);
                 match (&got, exists[pi][f]) {
                     (Ok(s), true) => ensure!(
@@ -1052,6 +1075,9 @@ impl Property for C20 {
         }
         if !sc.probes.is_empty() {
             push!(Sc { probes: vec![], ..sc.clone() });
+        }
+        if sc.migrate != 0 {
+            push!(Sc { migrate: 0, ..sc.clone() });
         }
         for (i, p) in sc.pkgs.iter().enumerate() {
             if p.crash_at != NFILES {
